@@ -11,9 +11,37 @@
 #include "memory_pool_collection.hpp"
 #include "memory_stack.hpp"
 #include "virtual_memory.hpp"
+#include "threading.hpp"
+#include "allocator_storage.hpp"
+#include <mutex>
 #include "../src/detail/small_free_list.cpp"
 using namespace foonathan::memory;
 using namespace foonathan::memory::detail;
+
+// C13: allocator archetypes for the mutex selection of allocator_storage (detail::mutex_for)
+namespace probe_arch
+{
+    template <int Declared /* 0 = no typedef, 1 = true_type, 2 = false_type */, bool Empty>
+    struct Arch;
+#define PROBE_ARCH_BODY                                                                                                                    \
+    void*       allocate_node(std::size_t, std::size_t) { return nullptr; }                                                               \
+    void        deallocate_node(void*, std::size_t, std::size_t) noexcept {}
+    template <> struct Arch<0, true> { PROBE_ARCH_BODY };
+    template <> struct Arch<0, false> { int state; PROBE_ARCH_BODY };
+    template <> struct Arch<1, true> { using is_stateful = std::true_type; PROBE_ARCH_BODY };
+    template <> struct Arch<1, false> { using is_stateful = std::true_type; int state; PROBE_ARCH_BODY };
+    template <> struct Arch<2, true> { using is_stateful = std::false_type; PROBE_ARCH_BODY };
+    template <int D, bool E>
+    constexpr int takes_mutex()
+    {
+        using A = Arch<D, E>;
+        using S = foonathan::memory::allocator_storage<foonathan::memory::direct_storage<A>, std::mutex>;
+        // the storage object really contains a std::mutex (not only the alias picks it)
+        return std::is_same<foonathan::memory::detail::mutex_for<A, std::mutex>, std::mutex>::value
+               && std::is_base_of<foonathan::memory::detail::mutex_storage<std::mutex>, S>::value;
+    }
+} // namespace probe_arch
+
 #define P(name, v) std::printf("%s %llu\n", name, (unsigned long long)(v))
 int main()
 {
@@ -40,5 +68,10 @@ int main()
     P("char_bit", CHAR_BIT);
     P("virtual_page_size", get_virtual_memory_page_size());
     P("node_list_is_ordered", (std::is_same<node_free_memory_list, ordered_free_memory_list>::value));
+    P("mutexfor_none_empty", (probe_arch::takes_mutex<0, true>()));
+    P("mutexfor_none_nonempty", (probe_arch::takes_mutex<0, false>()));
+    P("mutexfor_true_empty", (probe_arch::takes_mutex<1, true>()));
+    P("mutexfor_true_nonempty", (probe_arch::takes_mutex<1, false>()));
+    P("mutexfor_false_empty", (probe_arch::takes_mutex<2, true>()));
     return 0;
 }
